@@ -21,6 +21,27 @@ CHECKS = {
             "Bounded: containers <= 3 elements, encodings <= 12 bytes.",
             "Kani 0.68/CBMC 6.11 and its Rust model (dev profile, overflow checks on); alloc::fmt::format stubbed; nothing claimed outside the stated sizes",
             "DESIGN.md section 4 C26"),
+    "C21": (True,
+            "bounded model checking (Kani/CBMC, SAT) of the real Assertion code with symbolic columns, first steps, strides and trace lengths",
+            "overlaps_with is compared with the definition (common cell) for symbolic assertion pairs of every kind: a witness step when it "
+            "reports overlap, a universally quantified step when it does not; validation, step counts and apply() order against the "
+            "arithmetic progression. Trace lengths up to 2^32, strides up to 2^32, sequences of 2..8 values (16/64 thorough).",
+            "Kani/CBMC; assertion values are irrelevant to the clauses and fixed; prepare_assertions (private, B-tree based) is not executed",
+            "DESIGN.md section 4 C21"),
+    "C24": (True,
+            "bounded model checking (Kani/CBMC, SAT): pairwise injectivity of Context::to_elements over symbolic constructor arguments",
+            "Two symbolic, constructor-valid contexts are built through the public constructors and the real to_elements code is run on both; "
+            "equal seed vectors must imply equal listed parameters. Metadata lengths are enumerated per instance (0,1,2,15,16,...), bytes symbolic. "
+            "One known finding (trailing zero metadata bytes) is excluded by class and asserted by a witness harness.",
+            "Kani/CBMC; element type f128 (identity embedding of u32, structural equality); f64/f62 only through their modulus bytes",
+            "DESIGN.md section 4 C24"),
+    "C20": (True,
+            "bounded model checking (Kani/CBMC, SAT) of DefaultRandomCoin instantiated with nondeterministic / deterministic / ideal model hashers",
+            "Counts and ranges of integer draws and validity of drawn elements hold for every hash function (each hash output is a solver variable); "
+            "determinism for histories from a menu of 3 shapes with symbolic data; reseed sensitivity under a collision-free (lazily sampled injective) hasher; "
+            "the proof-of-work count equals the trailing zero bits of the first 8 digest bytes for every digest.",
+            "Kani/CBMC; model hashers with u64/u128 digests; injectivity of the ideal hasher is the collision-resistance assumption; histories <= 5 operations",
+            "DESIGN.md section 4 C20"),
 }
 
 
